@@ -298,6 +298,12 @@ def c01(tier):
     ix = gen_writer.interaction_programs(sd * 7919 + 1, "ix")
     rep.notes["interaction_rows"] = len(ix)
     scs += ix
+    # several large incompressible slices per write_vectored call into compressing entries (an encoder accepts only part of such a slice)
+    for m_ in (8, 93, 12, 0):
+        scs.append({"sc": "bigvec-%d" % m_, "ops": [{"op": "New"}, {"op": "StartFile", "name": "bigvec", "method": m_},
+                                                     {"op": "Write", "data": {"len": 600000, "seed": 77 + m_, "kind": "rand"}, "vec": True},
+                                                     {"op": "Write", "data": {"len": 300001, "seed": 78 + m_, "kind": "rand"}, "vec": True, "split": 150000},
+                                                     {"op": "StartFile", "name": "after", "method": 8}, {"op": "Write", "data": "after"}, {"op": "Finish"}]})
     # names and comments at the 16-bit length limit through every entry-creating call: what is accepted must read back whole, what
     # cannot be represented (a 65 535-byte directory name that gets a '/' appended) must be refused
     scs += [dict(s_, sc="lim-" + s_["sc"]) for s_ in boundary_scenarios() if "-65535-" in s_["sc"] or "-65534-" in s_["sc"]]
@@ -336,6 +342,14 @@ def boundary_scenarios():
             ):
                 k += 1
                 scs.append({"sc": "b-%s-%d-%d" % (what, ln, large), "ops": base + ops + tail})
+    # name and extra field each representable, together beyond 65 535 bytes (headers of more than 64 KiB)
+    for j, (nlen, xlen, large, uni) in enumerate([(40000, 30004, False, False), (65535, 0, True, False), (65535, 65000, False, True), (30000, 40000, True, True)]):
+        ops = [{"op": "New"}, {"op": "StartFile", "name": "first", "method": 8}, {"op": "Write", "data": "first"},
+               {"op": "StartFileExtra", "name": {"rep": "é" if uni else "n", "n": nlen}, "method": 0, "large": large}]
+        if xlen:
+            ops.append({"op": "WriteExtra", "recs": [{"id": 0xbeef, "dsz": xlen - 4}]})
+        ops += [{"op": "EndExtra"}, {"op": "Write", "data": "long header"}, {"op": "StartFile", "name": "last", "method": 8}, {"op": "Write", "data": "last"}, {"op": "Finish"}]
+        scs.append({"sc": "b-longhdr-65535-%d" % j, "ops": ops})
     for total in (65510, 65511, 65515, 65516, 65520, 65535, 65536, 65540, 70000):
         recs = [{"id": 0xbeef, "dsz": total - 4}] if total - 4 <= 65535 else [{"id": 0xbeef, "dsz": 60000}, {"id": 0xcafe, "dsz": total - 60008}]
         for large in (False, True):
@@ -618,7 +632,7 @@ def c13(tier):
                 # encrypted entries among the old ones (the property promises nothing about their content, but the archive written
                 # around them must stay well-formed - header fields of old records re-emitted as they were - and they must still decrypt)
                 ents = [{"name": b"e/plain", "method": 8, "data": b"plain " * 30},
-                        {"name": b"e/aes2", "method": 8, "data": b"aes two " * 20, "enc": ("aes", 2, 3, b"base-pw")},
+                        {"name": b"e/aes2", "method": 8, "data": b"aes two " * 20, "enc": ("aes", 2, 3, b"base-pw"), "z64": {"usize", "csize"}, "lz64": True},
                         {"name": b"e/zc", "method": 0, "data": b"zipcrypto stored", "enc": ("zc", b"base-pw")},
                         {"name": b"e/aes1", "method": 0, "data": b"aes one", "enc": ("aes", 1, 1, b"base-pw"), "cextra": [(0xbeef, b"x")], "aes_first": i % 2 == 0}]
                 g.r.shuffle(ents)
@@ -1151,7 +1165,10 @@ def c19(tier):
         if rnd.random() < 0.3:
             ops.append({"op": "AddDir", "name": "".join(chr(rnd.randrange(0xA0, 0x800)) for _ in range(4)), "method": 0})
         ops.append({"op": "Finish"})
-        ws.append({"sc": "wn%05d" % i, "ops": ops})
+        sc_ = {"sc": "wn%05d" % i, "ops": ops}
+        if i % 3 == 2:      # a sink that accepts only a few bytes per write: the stored name must arrive whole all the same
+            sc_["short_w_max"] = rnd.choice([1, 3, 7, 45, 46, 47])
+        ws.append(sc_)
     run_writer_programs(rep, wd, ws, "writer-names", neg_control=False)
     return rep.finish("model_checking",
                       "MC_Encoding: laws of the decoding operators over all 1- and 2-byte strings; binding: every byte value x flag x "
@@ -1278,6 +1295,13 @@ def read_seeds(rnd, small=True):
             {"name": b"aes-stored-128", "method": 0, "data": rb, "enc": ("aes", ver, 1, b"pass")},
             {"name": b"aes-deflate-256", "method": 8, "data": txt, "enc": ("aes", ver, 3, b"pass")},
             {"name": b"aes-stored-192-17", "method": 0, "data": rb[:17], "enc": ("aes", ver, 2, b"pass")}]}, [b"pass"]))
+    # zstd entries (compressed by the harness's zstd helper - CPython has no zstd; one and several frames): the fourth method's own
+    # reader arm
+    seeds.append(("zstd", {"entries": [
+        {"name": b"zstd-one.txt", "method": 93, "data": txt, "zframes": 1},
+        {"name": b"zstd-frames.bin", "method": 93, "data": rb + txt, "zframes": 3},
+        {"name": b"zstd-empty", "method": 93, "data": b"", "zframes": 1}]}, []))
+    gen_reader.resolve_zstd([d for _, d, _ in seeds], vlib.BIN)
     out = []
     for name, d, pws in seeds:
         b, v = refzip.build(d)
@@ -1695,6 +1719,16 @@ def c15(tier):
             else:
                 ops.append(dict(g.opts(), op="StartFile", name=g.name()))
                 ops.append({"op": "Write", "data": g.payload()})
+        # the password option on the other entry-creating calls: a symlink's target is content and must be encrypted like any other;
+        # aligned entries and entries with extra data take the option too
+        if i % 4 == 0:
+            pw2 = g.r.choice(["sym-pw", "", {"hex": "00ff80"}])
+            ops.append(dict(g.opts(), op="AddSymlink", name="link-%d" % i, target="target/of/the/link-%d" % i, enc=pw2))
+            ops.append(dict(g.opts(), op="AddDir", name="dir-%d" % i, enc=pw2))
+            ops.append(dict(g.opts(methods=[0, 8]), op="StartFileAligned", name="aligned-%d" % i, align=g.r.choice([4, 64, 4096]), enc=pw2))
+            ops.append({"op": "Write", "data": g.payload()})
+            ops.append(dict(g.opts(methods=[0, 8, 93]), op="StartFileExtra", name="extra-%d" % i, enc=pw2))
+            ops += [{"op": "WriteExtra", "recs": [{"id": 0xbeef, "dsz": 5}]}, {"op": "EndExtra"}, {"op": "Write", "data": g.payload()}]
         ops.append({"op": "Finish"})
         sc = {"sc": "enc%05d" % i, "ops": ops}
         if i % 3 == 1:      # a sink that accepts short writes: the encrypted body must still arrive completely
